@@ -60,7 +60,7 @@ def confirm(path):
         dest = os.path.join(VERIF, "seeded", name)
         os.makedirs(dest, exist_ok=True)
         for fn in os.listdir(path):
-            if os.path.isfile(os.path.join(path, fn)):
+            if os.path.isfile(os.path.join(path, fn)) and os.path.abspath(path) != os.path.abspath(dest):
                 shutil.copy(os.path.join(path, fn), os.path.join(dest, fn))
         meta = {}
         try:
@@ -87,7 +87,8 @@ def run(name, tier, props):
     if rc != 0:
         rc, out = sh(["git", "-C", REPO, "apply", "--3way", patch])
         if rc != 0:
-            sh(["git", "-C", REPO, "checkout", "--", "."])
+            # /repo was clean (checked above): drop the half-merged state the 3-way attempt leaves
+            sh(["git", "-C", REPO, "reset", "-q", "--hard", "HEAD"])
             return {"error": "patch does not apply: " + out[-200:]}
     result = {"tier": tier, "checks": {}}
     try:
